@@ -377,6 +377,10 @@ def r4(ctx):
     # parse_expr must not call parse_cond directly; parse_and must not call parse_expr/parse_and for operands
     if not layering_decided and calls_to(pe, "Parser::parse_cond"):
         ctx.violation("layering/parse_expr-skips-and", ctx.where(PARSE_EXPR), "parse_expr takes an operand from parse_cond directly")
+    brackets(ctx)
+
+
+def brackets(ctx):
     # brackets
     # parse_paren evaluated (finite interpreter; parse_expr and parse_func_scalar are stand-ins that take one word): an opening
     # bracket of either style holds one full expression and is closed by the bracket of its own style; anything else is a leaf
